@@ -292,3 +292,17 @@ PROPS["C16"] = dict(
     assumptions=["stack oracle: Linux, glibc thread stacks mapped lazily",
                  "the pretty Turtle serializer takes quadratic time, so its operations are run at 300..1000 (quick) / 3000 dev, 10000 release (thorough) elements, not 10^6"],
 )
+
+PROPS["C18"] = dict(
+    level="proof", runs=[dict(bin="c18")],
+    quick=dict(n=400, shards=16),
+    thorough=dict(n=20000, shards=128, run_timeout=3000, coq_case_timeout=3000),
+    trusted_base=[
+        "coq/C18/Model.v: hand transcription of convert_triple / serialize_triples (and the Checked wrapper of the fix) and of rio_xml 0.8.6 formatter.rs/parser.rs and quick-xml 0.36.2 escape.rs/writer.rs; documents compared byte for byte, both parses compared triple by triple",
+        "strict reader written from XML 1.0 (2.2, 2.11, 3.3.3, 4.1), Namespaces in XML and the RDF/XML rules for the formatter's vocabulary; cross-checked against an independent Rust reference reader in c18.rs",
+        "XML lexing (bytes to events) is not modelled; pads are proved never adjacent to text",
+        "IRI (oxiri) and BCP47 (oxilangtag) validation in Rio's reader is not modelled",
+        "the harness probes whether the repair is present and checks against the matching model variant",
+    ],
+    assumptions=["terms valid per sophia's BnodeId/IriRef/LanguageTag", "no DOCTYPE, so no custom entities"],
+)
